@@ -4,14 +4,15 @@
 // backend waits (wait hook) so a case is a pure function of its bytes.
 //
 // Reference model (written from bufferevent.h's bufferevent_set_timeouts text and the property statement):
-//   read  idle timer active  <=> EV_READ enabled  && read timeout configured  && !suspended (input >= read high-watermark)
+//   read  idle timer active  <=> EV_READ enabled  && read timeout configured  && !suspended (input >= read high-watermark,
+//                                or - socket world - bandwidth-suspended according to the library's own BEV_SUSPEND_BW flag)
 //   write idle timer active  <=> EV_WRITE enabled && write timeout configured && output non-empty
 //   an active timer's deadline = (instant it last became active | last successful transfer in that direction |
 //   last restart point) + configured timeout.  A BEV_EVENT_TIMEOUT|READING (WRITING) is legal iff the timer is active
 //   and due; a due timer must fire in the loop iteration in which it is due; the direction is disabled afterwards.
 // Code-derived restart points (docs silent; see props/C20.json): bufferevent_set_timeouts, bufferevent_enable of the
-// direction, any change of the input length / bufferevent_setwatermark(EV_READ) while a read high-watermark is set
-// and reading stays unsuspended (the library re-enables the direction internally).
+// direction, any bufferevent_setwatermark(EV_READ) call, any change of the input length while a read high-watermark is set
+// and reading stays unsuspended, bufferevent_set_rate_limit with a new cfg (the library re-enables the direction internally).
 // Preconditions respected: no op on a freed bufferevent; only the top bufferevent of a filter stack is operated on
 // (plus an optional write high-watermark on the underlying one at creation); the peer never closes (no EOF/error).
 #include "verif.h"
@@ -23,6 +24,9 @@
 #include <unistd.h>
 #include <fcntl.h>
 #include <errno.h>
+extern "C" {
+#include "bufferevent-internal.h"
+}
 
 namespace {
 enum { T_SOCK = 0, T_PAIR = 1, T_FILTER = 2 };
@@ -39,10 +43,11 @@ struct MB {
   int reenable = 0;       // event callback re-enables the timed-out direction
   bool deferred = false;
   bool ever_set[2] = {false, false};
+  bool limited = false, ever_limited = false; int rl_k = 0;
 };
 struct World {
   Src *s; struct event_base *base = nullptr; int type = 0; MB b[2]; int nb = 0;
-  struct bufferevent *under = nullptr; int fd[2] = {-1, -1};
+  struct bufferevent *under = nullptr; int fd[2] = {-1, -1}; struct ev_token_bucket_cfg *rl[2] = {nullptr, nullptr}; int bw_cycles = 0;
   int64_t run_end = 0; int run_waits = 0; bool aborted = false; bool in_loop = false; bool teardown = false;
   int fired_total = 0, restarts = 0, saw_suspend_cycle = 0;
   bool ex_pair_write = false, ex_filter_write = false, ex_pair_read_wm = false, ex_filter_read_wm = false, ex_clear = false, ex_sock_write_empty = false;
@@ -57,6 +62,8 @@ const char *why_inactive(MB &m, int dir) {
   if (!(m.enabled & ev)) return "disabled";
   if (m.t[dir] <= 0) return "unconfigured";
   if (dir == 0 && m.wm_high && inlen(m) >= m.wm_high) return "suspended";
+  // bandwidth suspension is taken from the library's own flags (C22 checks when they are set); sock world only
+  if (m.limited && ((dir == 0 ? BEV_UPCAST(m.bev)->read_suspended : BEV_UPCAST(m.bev)->write_suspended) & (BEV_SUSPEND_BW | BEV_SUSPEND_BW_GROUP))) { W->bw_cycles++; return "suspended"; }
   if (dir == 1 && outlen(m) == 0) return "no-output";
   return nullptr;
 }
@@ -100,6 +107,7 @@ int64_t wait_hook(const struct sim_wait_info *wi, void *) {
   Src &s = *W->s;
   int64_t now = sim_now_us();
   if (W->teardown) return 0;
+  for (int i = 0; i < W->nb; i++) sync(W->b[i]);   // picks up bandwidth (un)suspension done by the refill timer in this iteration
   check_missed("due at the previous wake-up, loop is waiting again");
   if (++W->run_waits > 600) { W->aborted = true; event_base_loopbreak(W->base); return 0; }
   if (wi->nready > 0) { TR("    wait#%llu ready=%d +20us", (unsigned long long)wi->ordinal, wi->nready); return 20; }
@@ -173,7 +181,7 @@ void event_cb(struct bufferevent *bev, short what, void *arg) {
 const int64_t TOS[] = {0, 1000, 5000, 10000, 10001, 50000, 1000000, 3000000};
 const int64_t RUNS[] = {0, 1000, 4000, 9000, 10000, 11000, 60000, 2000000, 5000000};
 const size_t WRS[] = {1, 10, 100, 600, 4000, 70000};
-const size_t WMS[] = {0, 1, 16, 64, 1000};
+const size_t WMS[] = {0, 1, 10, 100, 1000};   // equal to peer-write sizes so that input can sit exactly at the mark with nothing left in the socket
 static char BLOB[70000];
 
 void setup_bev(MB &m, struct bufferevent *bev, int type, int idx, bool deferred, Src &s) {
@@ -233,7 +241,7 @@ extern "C" int LLVMFuzzerTestOneInput(const uint8_t *data, size_t size) {
   }
 
   for (int step = 0; step < 48 && !w.aborted; step++) {
-    int op = s.below(10);
+    int op = s.below(11);
     if (op == 0) break;
     MB &m = w.b[s.below(w.nb)];
     switch (op) {
@@ -263,14 +271,24 @@ extern "C" int LLVMFuzzerTestOneInput(const uint8_t *data, size_t size) {
         m.wm_high = high; sync(m);
         restart(m, 0, false);   // code-derived corner: (re-)evaluating the read watermark re-enables an unsuspended direction
         break; }
-      case 5: { size_t n = WRS[s.below(m.type == T_PAIR ? 5 : 6)];
-        if (outlen(m) + n > (m.type == T_PAIR ? 9000u : 80000u)) break;
+      case 5: { size_t n = WRS[s.below(m.type == T_PAIR ? 4 : 6)];
+        if (outlen(m) + n > (m.type == T_PAIR ? 2500u : 80000u)) break;   // a 1-byte read watermark moves pair data one byte per callback
         int r = bufferevent_write(m.bev, BLOB, n); TR("write %s%d %zu -> %d (out=%zu)", TN[m.type], m.idx, n, r, outlen(m));
         CHECK(r == 0, "C20/write-failed", "r=%d", r); sync(m); break; }
       case 6: { size_t n = inlen(m); if (s.flag()) n = (n + 1) / 2;
         evbuffer_drain(bufferevent_get_input(m.bev), n); TR("drain-input %s%d %zu (in=%zu)", TN[m.type], m.idx, n, inlen(m)); sync(m); break; }
       case 7: if (w.type != T_PAIR) { size_t n = WRS[s.below(5)]; ssize_t r = write(w.fd[1], BLOB, n); TR("peer-write %zu -> %zd", n, r); } break;
       case 8: if (w.type != T_PAIR) { size_t n = WRS[1 + s.below(5)]; static char sink[70000]; ssize_t r = read(w.fd[1], sink, n); TR("peer-read %zu -> %zd", n, r); } break;
+      case 10: if (w.type == T_SOCK) {       // per-bufferevent rate limit: 100 bytes per 10 ms tick (reads; writes too unless excluded), or none
+        int k = s.below(3);
+        if (!w.rl[0]) { struct timeval tl = {0, 10000}; w.rl[0] = ev_token_bucket_cfg_new(100, 100, 100, 100, &tl); w.rl[1] = ev_token_bucket_cfg_new(100, 300, 1000000, 1000000, &tl); }
+        if (k == 1 && w.ex_sock_write_empty) { k = 2; verif_known_skipped("C20/sock-write-timeout-while-no-output"); }
+        if (w.ex_sock_write_empty && (m.enabled & EV_WRITE) && outlen(m) == 0) { verif_known_skipped("C20/sock-write-timeout-while-no-output"); break; }   // (re)configuring re-enables EV_WRITE internally
+        int r = bufferevent_set_rate_limit(m.bev, k == 0 ? nullptr : w.rl[k - 1]); TR("set_rate_limit %s%d %d -> %d", TN[m.type], m.idx, k, r);
+        CHECK(r == 0, "C20/set-rate-limit-failed", "r=%d", r);
+        bool noop = (k != 0 && k == m.rl_k) || (k == 0 && !m.ever_limited);   // same cfg again / never limited: the library does nothing
+        m.limited = k != 0; m.rl_k = k; if (k) m.ever_limited = true; sync(m); if (!noop) { restart(m, 0, false); restart(m, 1, false); } }   // code-derived: (re)configuring the limit re-enables unsuspended directions
+        break;
       case 9: {
         int64_t d = RUNS[s.below(9)];
         w.run_end = sim_now_us() + d; w.run_waits = 0;
@@ -299,12 +317,14 @@ extern "C" int LLVMFuzzerTestOneInput(const uint8_t *data, size_t size) {
   for (int i = 0; i < w.nb; i++) bufferevent_free(tofree[i]);
   if (w.under) bufferevent_free(w.under);
   event_base_free(w.base);
+  for (int k = 0; k < 2; k++) if (w.rl[k]) ev_token_bucket_cfg_free(w.rl[k]);
   if (w.fd[0] >= 0) { close(w.fd[0]); close(w.fd[1]); }
   CHECK(sim_mem_live_blocks == live0, "C20/leak", "library allocations outstanding after base free: %lld", (long long)(sim_mem_live_blocks - live0));
   if (fired) { verif_class("fired"); verif_class(w.type == T_SOCK ? "fired_sock" : w.type == T_PAIR ? "fired_pair" : "fired_filter"); }
   if (restarts) verif_class("restarted_by_transfer");
   if (both) verif_class("fired_and_restarted_same_direction");
   if (w.aborted) verif_class("aborted");
+  if (w.bw_cycles) verif_class("bandwidth_suspended");
   verif_case_end(!w.aborted && fired >= 1 && restarts >= 1, s.h);
   W = nullptr;
   return 0;
